@@ -9,6 +9,7 @@
 #include <hgraph/runtime/diagnostic_path.h>
 #include <hgraph/runtime/lifecycle_observer.h>
 #include <hgraph/runtime/runtime.h>
+#include <hgraph/types/context_wiring.h>
 #include <hgraph/types/graph_wiring.h>
 #include <hgraph/types/static_node.h>
 #include <hgraph/types/subgraph_wiring.h>
